@@ -153,6 +153,21 @@ fn cfg_total() -> BoxedStrategy<CfgSpec> {
         .boxed()
 }
 
+/// Regular and irregular tables with many empty cells at small widths (column arithmetic).
+fn table_case() -> BoxedStrategy<TotalCase> {
+    use crate::gen::{Attrs, Block, Cell, Inline, Row, Table, Txt};
+    let cell = (prop_oneof![5 => Just(1u32), 1 => Just(2u32), 1 => Just(3u32), 1 => Just(0u32), 1 => Just(7u32)], prop_oneof![3 => Just(0u8), 2 => 1u8..4, 1 => 4u8..30]).prop_map(|(colspan, len)| Cell {
+        th: false,
+        colspan,
+        attrs: Attrs::none(),
+        kids: if len == 0 { vec![] } else { vec![Block::Inl(vec![Inline::Text(Txt::simple(len))])] },
+    });
+    let row = prop::collection::vec(cell, 1..9).prop_map(|cells| Row { attrs: Attrs::none(), cells });
+    let table = (prop::collection::vec(row, 1..5), any::<bool>(), 0usize..2).prop_map(|(rows, sections, head_rows)| Block::Table(Table { attrs: Attrs::none(), head_rows, sections, rows }));
+    let width = prop_oneof![6 => (0u8..=12).prop_map(W::Small), 3 => (0u8..=200).prop_map(W::Small), 1 => Just(W::Max), 1 => Just(W::Big)];
+    (table, width, cfg_total()).prop_map(|(t, width, cfg)| TotalCase { doc: Doc::of(vec![t]), muts: vec![], raw: None, width, cfg }).boxed()
+}
+
 fn total_case(g: G, mutate: bool) -> BoxedStrategy<TotalCase> {
     let muts = if mutate { gen::mutations() } else { Just(vec![]).boxed() };
     (gen::doc(&g), muts, width_sel(), cfg_total())
@@ -364,6 +379,7 @@ pub fn property() -> Property {
             EnumSub::new("regressions", false, regression_items, check_total).boxed(),
             PropSub::new("mutated", 40_000, 400_000, move || total_case(g.clone(), true), check_total).with_validity(|c| c.doc.valid()).boxed(),
             PropSub::new("grammar", 16_000, 160_000, move || total_case(g2.clone(), false), check_total).with_validity(|c| c.doc.valid()).boxed(),
+            PropSub::new("tables", 16_000, 160_000, table_case, check_total).boxed(),
             EnumSub::new("ladder", false, ladder_items, check_ladder).with_hang_secs(4000).boxed(),
             FuzzSub { name: "fuzz_render", target: "fuzz_render", props: &["C01"], seconds: 300 }.boxed(),
             FuzzSub { name: "fuzz_struct", target: "fuzz_struct", props: &["C01"], seconds: 180 }.boxed(),
